@@ -361,6 +361,7 @@ func init() {
 	}
 	I["(*sync.WaitGroup).Done"] = func(m *Machine, fn *ssa.Function, a []Value) Value {
 		st := m.wgState(a[0].(Ptr).C)
+		m.vcRelease(&st.vc)
 		st.n--
 		if st.n < 0 {
 			m.goPanic("sync: negative WaitGroup counter")
@@ -373,6 +374,7 @@ func init() {
 		if st.n > 0 {
 			m.block(func() bool { return st.n == 0 }, "WaitGroup.Wait in "+m.curFn())
 		}
+		m.vcAcquire(st.vc)
 		return nil
 	}
 	I["(*sync.Once).Do"] = func(m *Machine, fn *ssa.Function, a []Value) Value {
@@ -396,6 +398,7 @@ func init() {
 				e := iv
 				st.err = &e
 			}
+			m.vcRelease(&st.vc)
 			st.n--
 		})
 		return nil
@@ -406,6 +409,7 @@ func init() {
 		if st.n > 0 {
 			m.block(func() bool { return st.n == 0 }, "errgroup.Wait in "+m.curFn())
 		}
+		m.vcAcquire(st.vc)
 		if st.err != nil {
 			return *st.err
 		}
@@ -418,18 +422,29 @@ func init() {
 	// atomic
 	I["sync/atomic.AddInt32"] = func(m *Machine, fn *ssa.Function, a []Value) Value {
 		p := a[0].(Ptr)
+		m.path.atomicDepth++
 		v := m.tt.Add(m.loadPtr(p).(*Term), a[1].(*Term))
 		m.storePtr(p, v)
+		m.path.atomicDepth--
 		return v
 	}
 	I["sync/atomic.AddInt64"] = I["sync/atomic.AddInt32"]
 	I["sync/atomic.AddUint32"] = I["sync/atomic.AddInt32"]
 	I["sync/atomic.AddUint64"] = I["sync/atomic.AddInt32"]
-	I["sync/atomic.LoadInt32"] = func(m *Machine, fn *ssa.Function, a []Value) Value { return m.loadPtr(a[0].(Ptr)) }
+	I["sync/atomic.LoadInt32"] = func(m *Machine, fn *ssa.Function, a []Value) Value {
+		m.path.atomicDepth++
+		defer func() { m.path.atomicDepth-- }()
+		return m.loadPtr(a[0].(Ptr))
+	}
 	I["sync/atomic.LoadInt64"] = I["sync/atomic.LoadInt32"]
 	I["sync/atomic.LoadUint32"] = I["sync/atomic.LoadInt32"]
 	I["sync/atomic.LoadUint64"] = I["sync/atomic.LoadInt32"]
-	I["sync/atomic.StoreInt32"] = func(m *Machine, fn *ssa.Function, a []Value) Value { m.storePtr(a[0].(Ptr), a[1]); return nil }
+	I["sync/atomic.StoreInt32"] = func(m *Machine, fn *ssa.Function, a []Value) Value {
+		m.path.atomicDepth++
+		m.storePtr(a[0].(Ptr), a[1])
+		m.path.atomicDepth--
+		return nil
+	}
 	I["sync/atomic.StoreInt64"] = I["sync/atomic.StoreInt32"]
 	I["sync/atomic.StoreUint32"] = I["sync/atomic.StoreInt32"]
 	I["sync/atomic.StoreUint64"] = I["sync/atomic.StoreInt32"]
@@ -759,6 +774,7 @@ func (m *Machine) tryFormat(kind string, a []Value) (string, bool) {
 // ---------------- sync objects ----------------
 
 type mutexState struct {
+	vc      []int
 	writer  *Goroutine
 	readers map[*Goroutine]int
 	wwait   int // writers waiting (blocks new readers, Go semantics)
@@ -799,6 +815,7 @@ func (m *Machine) mutexLock(c *Cell, write bool, op string) {
 		}
 		st.readers[g]++
 	}
+	m.vcAcquire(st.vc)
 }
 
 func (m *Machine) lockViolation(what string) {
@@ -813,6 +830,7 @@ func (m *Machine) lockViolation(what string) {
 func (m *Machine) mutexUnlock(c *Cell, write bool) {
 	st := m.mutexState(c)
 	g := m.path.cur
+	m.vcRelease(&st.vc)
 	if write {
 		if st.writer == nil {
 			m.goPanic("sync: unlock of unlocked mutex")
@@ -842,10 +860,14 @@ func (m *Machine) mutexUnlock(c *Cell, write bool) {
 	}
 }
 
-type wgState struct{ n int }
+type wgState struct {
+	n  int
+	vc []int
+}
 type egState struct {
 	n   int
 	err *IfaceVal
+	vc  []int
 }
 
 func (m *Machine) wgState(c *Cell) *wgState {
